@@ -560,3 +560,38 @@ package index
 //@   ensures @C17-done-closed closed(index.gcDone)
 //@   ensures @C17-cycle-waited gcDone == nil || waited(gcDone)
 //@   loop 0 invariant index.gcStop == old(index.gcStop) && index.gcDone == old(index.gcDone) && !closed(index.gcDone) && t != nil && fresh(t.C) && (gcDone == nil || fresh(gcDone))
+
+// scanIndexFile (C02, C03, C07): crash recovery of one index file. The scan follows the record
+// chain (gB, ghost: boundaries found); a bucket receives the position of the payload of the
+// record under the cursor; a torn tail is cut off at the start of the torn record, so that when
+// the scan succeeds the file ends at a record boundary (gend, ghost: size set by a successful
+// truncation; otherwise the size is unchanged).
+//@ func scanIndexFile(ctx context.Context, basePath string, fileNum uint32, buckets Buckets, maxFileSize uint32) (err error)  property C02 C03 C07
+//@   requires maxFileSize > 0 && maxFileSize <= (1 << 30)
+//@   modifies elems(buckets), ctx.$done
+//@   ghost var gB (Array Int Bool) = nopos()[0 := true]
+//@   ghost var gpos int = 0
+//@   ghost var gsz int = 0
+//@   ghost var gend int = 0 - 1
+//@   ghost var gscanned bool = false
+//@   ghost var gtruncfailed bool = false
+//@   ghost at loop 0 head: gpos = pos
+//@   ghost at loop 0 head: gscanned = true
+//@   ghost at after call (encoding/binary.littleEndian).Uint32#0: gsz = $r0 % 2147483648
+//@   ghost at loop 0 latch: gB = gB[pos := true]
+//@   ghost at after call os.Truncate#0: gend = ite($r0 == nil, $a1, gend)
+//@   ghost at after call os.Truncate#0: gtruncfailed = (gtruncfailed || $r0 != nil)
+//@   ghost at after call os.Truncate#1: gend = ite($r0 == nil, $a1, gend)
+//@   ghost at after call os.Truncate#1: gtruncfailed = (gtruncfailed || $r0 != nil)
+// input invariants: an index record carries at least the 4-byte bucket prefix and is smaller than
+// 2^30 bytes; a record marked deleted is complete (only complete records are ever marked)
+//@   assume at after call (encoding/binary.littleEndian).Uint32#0: @format-index-record-size $r0 % 2147483648 >= 4 && $r0 % 2147483648 < 1073741824
+//@   assume at after call (encoding/binary.littleEndian).Uint32#0: @format-deleted-record-complete $r0 >= 2147483648 ==> gpos + 4 + $r0 % 2147483648 <= file.$size
+//@   assert at loop 0 latch: @cursor-follows-format pos == gpos + 4 + gsz
+//@   assert at before call (*os.File).ReadAt#0: @read-at-boundary $a2 == pos && gB[pos] && len($a1) == 4
+//@   assert at before call (*os.File).ReadAt#1: @read-payload $a2 == gpos + 4 && len($a1) == gsz
+//@   assert at before call index.Buckets.Put#0: @bucket-gets-record-position $a1 == le32(bytes(data), 0) && $a2 == ibpos(fileNum, maxFileSize, gpos + 4)
+//@   assert at before call os.Truncate#0: @cut-at-record-start $a0 == fname(basePath, fileNum) && $a1 == gpos && gB[gpos]
+//@   assert at before call os.Truncate#1: @cut-at-record-start $a0 == fname(basePath, fileNum) && $a1 == gpos && gB[gpos]
+//@   internal ensures @ends-at-boundary err == nil && gscanned && !gtruncfailed ==> (gend >= 0 ==> gB[gend]) && (gend < 0 ==> gB[file.$size])
+//@   loop 0 invariant @cursor pos >= 0 && pos <= file.$size && file.$size < (1 << 62) && gB[pos] && file != nil && fresh(file) && len(sizeBuffer) == 4 && fresh(sizeBuffer) && (baseof(scratch) == 0 || fresh(scratch)) && gend == 0 - 1 && !gtruncfailed
